@@ -517,7 +517,7 @@ def splice(body, sections, fname):
                 # R14: type annotations for un-annotated closure parameters: `|a, b|` -> `|a: T, b: T|`.
                 # The names must be exactly the ones in the source, in order.
                 hdr = body[closures[k][0]:closures[k][1]]
-                src_names = [x.strip() for x in hdr.strip("|").split(",")]
+                src_names = [x.split(":")[0].strip() for x in hdr.strip("|").split(",")]
                 new_names = [x.split(":")[0].strip() for x in params.split(",")]
                 if src_names != new_names:
                     raise ExtractError("%s: closure %d parameters are %r, contract expects %r" % (fname, k, src_names, new_names))
